@@ -50,7 +50,7 @@ func init() {
 
 // Rec is the typed value.
 type Rec struct {
-	A string `json:"a"`
+	A string `json:"a,omitempty"` // an empty A is absent from the stored JSON
 	N int    `json:"n"`
 }
 
@@ -89,6 +89,10 @@ type Workload struct {
 	Indexes []string `json:"indexes"`
 	Seeds   []Op     `json:"seeds"`
 	Gens    [][]Op   `json:"gens"`
+	// Par, when > 0, names the generation (Par-1) whose operations are issued by three
+	// goroutines at once (partitioned by id, so per-id order is kept). That generation is
+	// never killed; kills in the others are enumerated as usual.
+	Par int `json:"par,omitempty"`
 }
 
 func (w Workload) String() string { b, _ := json.Marshal(w); return string(b) }
@@ -107,6 +111,9 @@ type Kill struct {
 func value(kind, a string, n int) interface{} {
 	switch kind {
 	case "map":
+		if a == "" {
+			return map[string]interface{}{"n": n} // a value that lacks the indexed field
+		}
 		return map[string]interface{}{"a": a, "n": n}
 	case "binary":
 		return Bin{A: a, N: n}
@@ -238,7 +245,7 @@ func childMain() {
 	e.st.OnChange(func(id string, before, after interface{}) {
 		say("CHG %s %v %v", id, before != nil, after != nil)
 	})
-	for i, op := range w.Gens[gen] {
+	runOp := func(i int, op Op) {
 		say("BEGIN %d", i)
 		visit("op.before")
 		err := e.apply(w, op)
@@ -248,6 +255,36 @@ func childMain() {
 			say("ACK %d", i)
 		}
 		visit("op.after")
+	}
+	if w.Par == gen+1 {
+		// the leading Init alone, then three writers on disjoint id sets
+		var wg sync.WaitGroup
+		parts := make([][]int, 3)
+		for i, op := range w.Gens[gen] {
+			if i == 0 {
+				runOp(i, op)
+				continue
+			}
+			h := 0
+			for _, c := range op.ID {
+				h = h*31 + int(c)
+			}
+			parts[h%3] = append(parts[h%3], i)
+		}
+		for _, part := range parts {
+			wg.Add(1)
+			go func(part []int) {
+				defer wg.Done()
+				for _, i := range part {
+					runOp(i, w.Gens[gen][i])
+				}
+			}(part)
+		}
+		wg.Wait()
+	} else {
+		for i, op := range w.Gens[gen] {
+			runOp(i, op)
+		}
 	}
 	e.qs.Flush()
 	say("FLUSHED")
@@ -704,6 +741,15 @@ func genWorkload() *rapid.Generator[Workload] {
 		ng := rapid.IntRange(1, 3).Draw(t, "ngens")
 		for g := 0; g < ng; g++ {
 			ops := []Op{{K: "init"}}
+			if rapid.IntRange(0, 2+2*g).Draw(t, "lateinit") == 0 {
+				// a generation that writes before it calls Init (Init may still come later),
+				// preferably to an id that is also a seed
+				id := rapid.SampledFrom(ids).Draw(t, "preid")
+				if len(w.Seeds) > 0 && rapid.IntRange(0, 3).Draw(t, "preseed") > 0 {
+					id = w.Seeds[rapid.IntRange(0, len(w.Seeds)-1).Draw(t, "preseedid")].ID
+				}
+				ops = []Op{{K: "create", ID: id, A: rapid.SampledFrom(as).Draw(t, "prea"), N: rapid.IntRange(0, 9).Draw(t, "pren")}, {K: "init"}}
+			}
 			n := rapid.IntRange(1, 8).Draw(t, "nops")
 			for i := 0; i < n; i++ {
 				k := rapid.SampledFrom([]string{"create", "create", "update", "update", "delete", "init"}).Draw(t, "k")
@@ -716,6 +762,15 @@ func genWorkload() *rapid.Generator[Workload] {
 				ops = append(ops, op)
 			}
 			w.Gens = append(w.Gens, ops)
+		}
+		if rapid.IntRange(0, 2).Draw(t, "par") == 0 {
+			w.Par = 1 + rapid.IntRange(0, ng-1).Draw(t, "pargen")
+			// more, and longer, writes in the concurrent generation
+			g := w.Par - 1
+			for i := 0; i < 12; i++ {
+				w.Gens[g] = append(w.Gens[g], Op{K: rapid.SampledFrom([]string{"create", "update", "update", "delete"}).Draw(t, "pk"), ID: rapid.SampledFrom(ids).Draw(t, "pid"),
+					A: rapid.SampledFrom([]string{"a", "b", "ab", "", "a-considerably-longer-index-key-value"}).Draw(t, "pa"), N: rapid.IntRange(0, 9).Draw(t, "pn")})
+			}
 		}
 		return w
 	})
@@ -735,6 +790,9 @@ func enumerate(t *testing.T, w Workload, par int) (violation string, kill Kill, 
 	for g := range w.Gens {
 		if g >= len(counts) {
 			break
+		}
+		if w.Par == g+1 {
+			continue // the concurrent generation is not killed
 		}
 		for _, p := range points {
 			for o := 1; o <= counts[g][p]; o++ {
@@ -853,6 +911,7 @@ func TestRandomTimeKills(t *testing.T) {
 	landed := 0
 	for i := sh; i < n; i += nsh {
 		w := genWorkload().Example(seed%1000003 + 100000 + i*7919)
+		w.Par = 0
 		g := (seed/11 + i) % len(w.Gens)
 		x := uint64(seed)*2654435761 + uint64(i)*40503
 		k := Kill{Gen: g, Point: "@time", AfterLine: 1 + int(x%uint64(2*len(w.Gens[g])+3)), DelayUs: []int{0, 0, 20, 80, 200, 500, 1500, 4000}[(x/97)%8]}
